@@ -81,6 +81,7 @@ def map_thick(case):
     prove("sample.value", core.conj(SV.lift(sample.isnan) == (h < 0),
                                     core.implies(h >= 0, SV.lift(sample.val) == SV.lift(run.data[0]._array.elem((m_hit,))))))
     c03.complete(run, kc, j, i, q, wf + [inz, dz > 0], k, "sample.")
+    c03.kernel_pre(run, kc, k, j, i)
     # reduction along the depth axis
     lay = run.out.layers[0]
     data = lay["data"]
